@@ -21,7 +21,8 @@ PRECS = [-2, -1, 0, 1, 2]
 def grid(tier):
     ints = [0, 1, -1, 2, -2, 3, -3, 5, -5, 6, -6, 7, -7, 2 ** 63, -2 ** 63, 10 ** 20, -10 ** 20]
     decs = ['0', '0.5', '-0.5', '1.5', '-1.5', '2.5', '-2.5', '6.5', '-6.5', '3', '-3', '6', '-6',
-            '0.001', '-0.001', '0.125', '-0.125', '1000000000000.5', '-1000000000000.5']
+            '0.001', '-0.001', '0.125', '-0.125', '1000000000000.5', '-1000000000000.5',
+            '9007199254740993.5', '-9007199254740993.5']   # integer part beyond 2**53: not representable as a double
     dbls = [0.0, -0.0, 0.5, -0.5, 1.5, -1.5, 2.5, -2.5, 6.5, -6.5, 3.0, -3.0, 6.0, -6.0,
             1e-7, -1e-7, 1e21, -1e21, math.inf, -math.inf, math.nan]
     flts = [0.0, -0.0, 0.5, -0.5, 1.5, -1.5, 2.5, -2.5, 6.5, -6.5, 3.0, -3.0, 6.0, -6.0,
